@@ -107,7 +107,7 @@ theorem exVmpDD : VmpDDBudget exMod #[3, 4] 1 1 (fun _ => #[-5, 10]) exAd 1 1 ex
       simp [sum_range_succ]; norm_num
 
 theorem exPreM4 : PreM exMod exVars (.vmpDD exD2 exD0 exM0) exA3 exB3 exS3 exDl1 := by
-  refine ⟨fun _ _ => by unfold exDl1; norm_num, #[#[-5, 10]], #[#[3, 4]], ex2_f3.1, ex2_f3.2.1, ?_⟩
+  refine ⟨by decide, fun _ _ => by unfold exDl1; norm_num, #[#[-5, 10]], #[#[3, 4]], ex2_f3.1, ex2_f3.2.1, ?_⟩
   show VmpDDBudget exMod (flatOf 2 (1 * 1) (fun i t => Val.coef #[#[3, 4]] i t)) 1 1
     (fun i => polyArr 2 (Val.coef #[#[-5, 10]] i)) (exS3.dvec exD0) 1 1 (exB3 exD0) exDl1
   rw [ex_mat.1, ex2_s3]
